@@ -648,7 +648,7 @@ def run(ctx):
     rnd = ctx.rnd
     inst = install_probes()
     try:
-        for j0 in range(ctx.scale(640, 60000)):
+        for j0 in range(ctx.scale(640, 40000)):
             judge_run(ctx, gen_case(rnd, j0 * ctx.nshards + ctx.shard), "inproc")
         for j0 in range(ctx.scale(64, 6000)):
             j = j0 * ctx.nshards + ctx.shard
